@@ -38,6 +38,12 @@ def seeds(ctx):
             L.minor, L.sysdep = 1, rng.choice([0, 2])
         data, info = ML.serialise_catalog(cat, tcs, L, rng)
         out.append((data, info, 'generated'))
+        if k % 4 == 1 and name == 'UTF-8' and len(info['terms']) > 3:
+            # the same file with an undecodable byte at the end of an early string: every structural fault below is then met
+            # on the second (ISO-8859-1) attempt of Checker.check, after a UnicodeDecodeError on the first
+            t = info['terms'][2]
+            if t > 0 and data[t - 1] not in (0, 4):
+                out.append((data[:t - 1] + b'\xff' + data[t:], info, 'generated-undecodable'))
     for name, data in C08.blackbox_files():
         r = ML.ref_read(data)
         if r[0] != 'ok' or len(data) > 1500:
@@ -260,6 +266,10 @@ def check(ctx):
     # attempt failed to decode); decode error <=> broken-encoding
     first = [p for p in cases if p[0] is None]
     sample = first[::max(1, len(first) // (400 if ctx.quick() else 5000))]
+    # plus the files whose first attempt ends in a decode error (the retry path), up to a cap
+    dec = [p for p in first if by_payload[p][0].startswith("('decode'")]
+    seen = set(sample)
+    sample += [p for p in dec[::max(1, len(dec) // (600 if ctx.quick() else 6000))] if p not in seen]
     lat = common.run_driver([ML.model_line(('ISO-8859-1', p[1])) for p in sample])
     tags = common.pmap('harness.c09', 'impl_checker_tags', [p[1] for p in sample], per_case_timeout=60)
     ctx.evaluations += len(tags)
